@@ -84,7 +84,10 @@ def draw_collection(ch, max_images=6, sizes=(60, 200, 300, 520, 700, 256, 512)):
     # how the files carry the data: image in the primary HDU or in the first extension behind an empty primary
     # (toasty scans for the first image HDU); undefined pixels as NaN or as a sentinel declared through `blankval`
     for r in col.rects:
-        r["in_extension"] = ch.draw(4, kind="hdu_container") == 3
+        # 'pri' image in the primary HDU; 'ext' empty primary + SCI extension; 'ext+wht' the same followed by a weight
+        # map of the same shape; 'pri+wht' primary image followed by a weight-map extension (toasty takes the first image)
+        r["container"] = ("pri", "pri", "pri", "ext", "ext+wht", "pri+wht")[ch.draw(6, kind="hdu_container")]
+        r["in_extension"] = r["container"].startswith("ext")
     col.blankval = (None, None, None, -32768.0, 0.0)[ch.draw(5, kind="blankval")]
     # saturated samples (+-inf) in one collection out of two; FITS pyramids holding infinities cannot be cascaded by
     # toasty (Builder.cascade needs DATAMIN / DATAMAX of the root tile), so workflows that cascade switch this off
@@ -172,10 +175,12 @@ def write_collection(col, d):
         data = np.ascontiguousarray(data)
         if getattr(col, "blankval", None) is not None:
             data = np.where(np.isnan(data), np.asarray(col.blankval, dtype=data.dtype), data)
-        if r.get("in_extension"):
-            fits.HDUList([fits.PrimaryHDU(), fits.ImageHDU(data=data, header=hdr, name="SCI")]).writeto(p, overwrite=True)
-        else:
-            fits.PrimaryHDU(data=data, header=hdr).writeto(p, overwrite=True)
+        cont = r.get("container", "ext" if r.get("in_extension") else "pri")
+        hdus = [fits.PrimaryHDU(), fits.ImageHDU(data=data, header=hdr, name="SCI")] if cont.startswith("ext") else [fits.PrimaryHDU(data=data, header=hdr)]
+        if cont.endswith("+wht"):
+            wht = np.full(data.shape, 0.25 + k, dtype=np.float32)       # same grid, other numbers: must not end up in the tiles
+            hdus.append(fits.ImageHDU(data=wht, header=hdr, name="WHT"))
+        fits.HDUList(hdus).writeto(p, overwrite=True)
         paths.append(p)
     col.paths = paths
     return paths
@@ -188,7 +193,7 @@ def mosaic_wcs(col):
 
 def describe(col):
     return {"canvas_bbox": [col.R0, col.C0, col.H, col.W], "dtype": np.dtype(col.dtype).name,
-            "rects": [(r["r0"], r["c0"], r["h"], r["w"], r["border"], r["holes"], "bu" if r["bottom_up"] else "td", "ext" if r.get("in_extension") else "pri") for r in col.rects],
+            "rects": [(r["r0"], r["c0"], r["h"], r["w"], r["border"], r["holes"], "bu" if r["bottom_up"] else "td", r.get("container", "pri")) for r in col.rects],
             "blankval": getattr(col, "blankval", None),
             "crpix": [col.px, col.py], "crval": [col.ra, col.dec], "scale": col.scale, "rot": col.theta}
 
